@@ -346,11 +346,22 @@ def run(ctx: Ctx):
 
     # ---- R01.g time aliases -------------------------------------------------------------------------------
     ctx.rule("R01.g", "`t` and `time` both denote the one time symbol, which is the formal argument t of the generated functions", floor=3)
+    from sa import av as _avg
+
+    from . import odemodel as _om
+
     mo = sm.func("ode.py", "make_ode")
-    tdef = [n for n in ast.walk(mo.node) if isinstance(n, ast.Assign) and norm(n.targets[0]) == "t"]
-    okt = bool(tdef) and norm(tdef[0].value).replace('"', "'") == "sp.Symbol('t')"
-    al = {const_str(n.targets[0].slice): norm(n.value) for n in ast.walk(mo.node) if isinstance(n, ast.Assign) and isinstance(n.targets[0], ast.Subscript) and norm(n.targets[0].value) == "symbols"}
-    ctx.check(okt and al.get("t") == "t" and al.get("time") == "t", "R01.g", mo.key("aliases"), "symbols['t'] = symbols['time'] = Symbol('t')", f"make_ode binds the time aliases as {al} (t = {norm(tdef[0].value) if tdef else None})", mo.where())
+    mv_, _e = _om.construction(ctx, "make_ode")
+    rc = _om.resolve_call(mv_)
+    if rc is None:
+        ctx.undecided("R01.g", mo.key("aliases"), "make_ode is not understood", mo.where())
+    else:
+        passed = dict(rc[3]).get("symbols", rc[2][1] if len(rc[2]) > 1 else None)
+        _base, extra = _om.setitem_chain(passed) if passed is not None else (None, {})
+        tsym = ("call", "sympy.Symbol", (_avg.C("t"),), ())
+        odec = [c for c in _avg.find_all(mv_, "call") if c[1].split(".")[-1] == "ODE"]
+        okt = bool(odec) and dict(odec[0][3]).get("t") == tsym
+        ctx.check(okt and extra.get("t") == tsym and extra.get("time") == tsym, "R01.g", mo.key("aliases"), "symbols['t'] = symbols['time'] = Symbol('t')", f"make_ode binds the time aliases as {{{', '.join(k + ': ' + _avg.show(x) for k, x in extra.items())}}} (the model's t is {_avg.show(dict(odec[0][3]).get('t')) if odec and dict(odec[0][3]).get('t') else None})", mo.where())
     mv = sm.func("ode.py", "ODE.missing_variables")
     ctx.check(any(norm(n.value).replace('"', "'") == "set(self.symbols.keys()) | {'t'}" for n in ast.walk(mv.node) if isinstance(n, ast.Assign)), "R01.g", mv.key("t-is-known"), "`t` is never a missing variable", "ODE.missing_variables does not treat `t` as a known symbol", mv.where())
     pa = sm.func("codegen/python.py", "PythonCodeGenerator._rhs_arguments")
@@ -444,12 +455,24 @@ def assembly(ctx: Ctx, rule: str):
     comp = [c for c in ast.walk(rx.node) if isinstance(c, ast.Call) and norm(c.func) == "Component"]
     okc = bool(comp) and {k.arg: norm(k.value) for k in comp[0].keywords} == {"name": "component.name", "states": "component.states", "parameters": "component.parameters", "assignments": "frozenset(assignments)"}
     ctx.check(ok and okc, rule, rx.key("all-assignments"), "every assignment of every component is resolved with the model-wide symbols", "resolve_expressions does not resolve every assignment of every component (or rebuilds the component from something else)", rx.where())
+    from sa import av as _avm
+
+    from . import odemodel
+
     mo = sm.func("ode.py", "make_ode")
-    calls = [c for c in ast.walk(mo.node) if isinstance(c, ast.Call) and norm(c.func) == "resolve_expressions"]
-    okm = bool(calls) and {k.arg: norm(k.value) for k in calls[0].keywords} == {"components": "components", "symbols": "symbols"}
-    ga = [n for n in ast.walk(mo.node) if isinstance(n, ast.Assign) and isinstance(n.value, ast.Call) and norm(n.value.func) == "gather_atoms"]
-    okm = okm and bool(ga) and [norm(e) for e in ga[0].targets[0].elts][2] == "symbols"
-    ctx.check(okm, rule, mo.key("symbol-table"), "symbols of all components (gather_atoms) are used to resolve", "make_ode does not resolve the expressions with the symbol table gathered from all components", mo.where())
+    mv_, _e = odemodel.construction(ctx, "make_ode")
+    rc = odemodel.resolve_call(mv_)
+    if rc is None and _avm.has_unk(mv_):
+        ctx.undecided(rule, mo.key("symbol-table"), "make_ode is not understood", mo.where())
+    else:
+        okm = False
+        if rc is not None:
+            kw = dict(rc[3])
+            passed = kw.get("symbols", rc[2][1] if len(rc[2]) > 1 else None)
+            comps = kw.get("components", rc[2][0] if rc[2] else None)
+            base, _extra = odemodel.setitem_chain(passed) if passed is not None else (None, {})
+            okm = comps == ("sym", "components") and base is not None and odemodel.field_of(base, 2) is not None
+        ctx.check(okm, rule, mo.key("symbol-table"), "symbols of all components (gather_atoms) are used to resolve", "make_ode does not resolve the expressions of the given components with the symbol table gathered from all components", mo.where())
     for cls in ("Assignment", "StateDerivative"):
         f = sm.func("atoms.py", f"{cls}.resolve_expression")
         ex = [n for n in ast.walk(f.node) if isinstance(n, ast.Assign) and norm(n.targets[0]) == "expr"]
